@@ -97,6 +97,41 @@ func (x *Exec) lockOp(n *node, recv Value, pos token.Pos, what string) {
 			}
 			delete(st.Written, key)
 		}
+		// ghost tokens shared under this lock: anything may have happened to tokens this thread does not hold
+		// (value 2 = held by the current thread); the set of tokens it holds is unchanged
+		for _, tk := range li.Tokens {
+			key := "ghost." + tk
+			srt := Arr(IntS, IntS)
+			old := x.heap(st, key, srt)
+			na := x.VC.Fresh("H.ghost."+tk, srt)
+			o := x.VC.Fresh("to", IntS)
+			x.VC.AssumeForall([]*Term{o}, n.guard, And(Eq(Eq(Select(old, o), IntLit(2)), Eq(Select(na, o), IntLit(2))),
+				IntCmp(">=", Select(na, o), IntLit(0)), IntCmp("<=", Select(na, o), IntLit(2))), "token-stable")
+			st.Heap[key] = na
+			delete(st.Shapes, key)
+			// ghost fields that follow the token: unchanged for objects whose token this thread holds
+			for _, fl := range li.Followers[tk] {
+				var skey string
+				var es *Sort
+				switch {
+				case strings.HasPrefix(fl, "gv_"):
+					skey, es = "ghost.v."+fl[3:], bv64
+				case strings.HasPrefix(fl, "gb_"):
+					skey, es = "ghost."+fl[3:], BoolS
+				case strings.HasPrefix(fl, "gf_"):
+					skey, es = "ghost."+fl[3:], IntS
+				default:
+					continue
+				}
+				ssrt := Arr(IntS, es)
+				sold := x.heap(st, skey, ssrt)
+				sna := x.VC.Fresh("H."+skey, ssrt)
+				o2 := x.VC.Fresh("to", IntS)
+				x.VC.AssumeForall([]*Term{o2}, n.guard, Implies(Eq(Select(old, o2), IntLit(2)), Eq(Select(sna, o2), Select(sold, o2))), "follower-stable")
+				st.Heap[skey] = sna
+				delete(st.Shapes, skey)
+			}
+		}
 		for _, c := range li.Assumed {
 			env := x.lockEnv(st, n.guard, obj, owner, true)
 			g := env.EvalBool(c.Expr)
@@ -203,9 +238,65 @@ func (x *Exec) guardMapByType(n *node, mt *types.Map, m *Term, pos token.Pos, wr
 	x.Oblige("lockset", fmt.Sprintf("%s accessed without %s", mapKeyName(mt), name), fmt.Sprint(pos), pos, n.guard, False, li.Props)
 }
 
-func (x *Exec) ghostMapUpdate(n *node, mt *types.Map, mv ssa.Value, m, k *Term, v Value) {}
+// token tables: storing a value in the table requires the thread's token (2) for it and turns it into a table
+// token (1); deleting a present key under the lock hands the table token of the removed value to the deleting thread.
+func (x *Exec) ghostMapUpdate(n *node, mt *types.Map, mv ssa.Value, m, k *Term, v Value) {
+	tk, ok := x.P.Spec.TokenTables[x.dynKeyAny(mv)]
+	if !ok {
+		return
+	}
+	slot := x.P.Spec.TokenSlots[x.dynKeyAny(mv)]
+	sc, isS := v.(Scalar)
+	if !isS {
+		return
+	}
+	key := "ghost." + tk
+	cur := x.objGet(n.st, key, IntS, sc.T)
+	x.Oblige("token", "store into "+x.dynKeyAny(mv)+" needs the token of the stored value", fmt.Sprint(x.curPos), x.curPos, n.guard, Eq(cur, IntLit(2)), nil)
+	n.st.noRecord++
+	x.objSet(n.st, key, sc.T, IntLit(1))
+	if slot != "" {
+		x.objSet(n.st, "ghost.v."+slot, sc.T, k)
+	}
+	n.st.noRecord--
+}
 
-func (x *Exec) ghostMapDelete(n *node, mt *types.Map, m, k, was *Term) {}
+func (x *Exec) ghostMapDelete(n *node, mt *types.Map, m, k, was *Term) {
+	if x.curInstr == nil {
+		return
+	}
+	call, ok := x.curInstr.(*ssa.Call)
+	if !ok || len(call.Call.Args) == 0 {
+		return
+	}
+	tk, ok := x.P.Spec.TokenTables[x.dynKeyAny(call.Call.Args[0])]
+	if !ok {
+		return
+	}
+	slot := x.P.Spec.TokenSlots[x.dynKeyAny(call.Call.Args[0])]
+	// value that was stored under the key (state before the delete is gone; use the val component, unchanged by delete)
+	name, ks := x.mapComps(mt)
+	var oldv *Term
+	for _, c := range shapeComps(mt.Elem()) {
+		if c.Suffix == "" {
+			oldv = Select(x.objGet(n.st, name+".val", Arr(ks, c.S), m), k)
+		}
+	}
+	if oldv == nil {
+		return
+	}
+	oldv = x.VC.Def("deleted", oldv)
+	key := "ghost." + tk
+	cur := x.objGet(n.st, key, IntS, oldv)
+	n.st.noRecord++
+	mine := And(was, Eq(cur, IntLit(1)))
+	if slot != "" {
+		// only the entry the table token belongs to hands it over
+		mine = And(mine, Eq(x.objGet(n.st, "ghost.v."+slot, k.S, oldv), k))
+	}
+	x.objSet(n.st, key, oldv, Ite(mine, IntLit(2), cur))
+	n.st.noRecord--
+}
 
 func (x *Exec) ghostRecv(n *node, ch Value, v Value, i *ssa.UnOp) {}
 
@@ -273,6 +364,8 @@ func (e *SpecEnv) ghostCall(name string, n *ast.CallExpr) (Value, bool) {
 	switch {
 	case strings.HasPrefix(name, "gg_") && len(n.Args) == 0:
 		return Scalar{T: x.ghostField(e.st, "global."+name[3:], IntLit(0), IntS), Ty: nil}, true
+	case strings.HasPrefix(name, "ggv_") && len(n.Args) == 0:
+		return Scalar{T: x.ghostField(e.st, "globalv."+name[4:], IntLit(0), bv64), Ty: tyUint64}, true
 	case strings.HasPrefix(name, "ggb_") && len(n.Args) == 0:
 		return Scalar{T: x.ghostField(e.st, "global."+name[4:], IntLit(0), BoolS), Ty: tyBool}, true
 	case strings.HasPrefix(name, "gf_") && len(n.Args) == 1:
@@ -282,6 +375,13 @@ func (e *SpecEnv) ghostCall(name string, n *ast.CallExpr) (Value, bool) {
 			return UnknownV{}, true
 		}
 		return Scalar{T: x.ghostField(e.st, name[3:], r, IntS), Ty: nil}, true
+	case strings.HasPrefix(name, "gv_") && len(n.Args) == 1:
+		r := ref(e.eval(n.Args[0]))
+		if r == nil {
+			e.errorf("%s: object expected", name)
+			return UnknownV{}, true
+		}
+		return Scalar{T: x.ghostField(e.st, "v."+name[3:], r, bv64), Ty: tyUint64}, true
 	case strings.HasPrefix(name, "gb_") && len(n.Args) == 1:
 		r := ref(e.eval(n.Args[0]))
 		if r == nil {
